@@ -34,6 +34,8 @@ mod hw;
 mod value;
 #[path = "c15_probe.rs"]
 pub mod probe;
+#[path = "c15_writers.rs"]
+mod writers;
 
 use crate::driver::Driver;
 use crate::report::{trunc, Oracle, Report, Stream};
@@ -1286,6 +1288,8 @@ pub fn run(driver: &Driver, seed: u64, thorough: bool, replay: Option<&serde_jso
     rep.streams.push(rt_illtyped(driver, &schemas, seed, 12 * k));
     rep.streams.push(hw::hw_stream(driver, &schemas, seed, 120 * k));
     rep.streams.push(value::vw_stream(driver, &schemas, seed, 24 * k));
+    rep.streams.push(writers::cs_stream(driver, seed, 600 * k));
+    rep.streams.push(writers::pn_stream(driver, &schemas, seed, 300 * k));
     let (l1, l2) = oracle_laws(&schemas, seed, 60 * k, None);
     rep.oracles.push(l1);
     rep.oracles.push(l2);
